@@ -291,8 +291,12 @@ func (r *inFlightRequest) String() string {
 }
 
 func (r *inFlightRequest) onFrameReceived(f *frame.Frame) error {
+	// hold the read lock while sending: close() sets _incoming to nil and closes the channel under the write lock, so
+	// the channel read here cannot be closed (by a timeout or by the handler closing) between the read and the send
+	r.lock.RLock()
 	select {
 	case r._incoming <- f:
+		r.lock.RUnlock()
 		if isLastFrame(f) {
 			r.stopTimeout()
 			r.close(nil)
@@ -301,6 +305,7 @@ func (r *inFlightRequest) onFrameReceived(f *frame.Frame) error {
 		}
 		return nil
 	case <-r.ctx.Done():
+		r.lock.RUnlock()
 		// the request, or the connection it belongs to, is being closed: make sure the request is completed (it may
 		// already have been removed from the in-flight table, in which case nothing else would complete it)
 		err := fmt.Errorf("%v: request closed", r)
@@ -308,6 +313,7 @@ func (r *inFlightRequest) onFrameReceived(f *frame.Frame) error {
 		return err
 	default:
 		err := fmt.Errorf("%v: too many pending incoming frames: %d", r, len(r.incoming))
+		r.lock.RUnlock()
 		r.close(err)
 		return err
 	}
